@@ -408,7 +408,6 @@ template <typename Boundary, typename Info>
 template <typename From>
 typename Enable_If<Is_Interval<From>::value, bool>::type
 Interval<Boundary, Info>::simplify_using_context_assign(const From& y) {
-  // FIXME: the following code wrongly assumes that intervals are closed
   if (lt(UPPER, upper(), info(), LOWER, f_lower(y), f_info(y))) {
     lower_extend();
     return false;
@@ -418,13 +417,16 @@ Interval<Boundary, Info>::simplify_using_context_assign(const From& y) {
     return false;
   }
   // Weakening the upper bound.
+  // Note: the boundaries are compared taking into account whether or not
+  // they are open (the upper bound `1' of `[0, 1)' is not implied by
+  // the upper bound of the context `[0, 1]').
   if (!upper_is_boundary_infinity() && !y.upper_is_boundary_infinity()
-      && y.upper() <= upper()) {
+      && le(UPPER, f_upper(y), f_info(y), UPPER, upper(), info())) {
     upper_extend();
   }
   // Weakening the lower bound.
   if (!lower_is_boundary_infinity() && !y.lower_is_boundary_infinity()
-      && y.lower() >= lower()) {
+      && ge(LOWER, f_lower(y), f_info(y), LOWER, lower(), info())) {
     lower_extend();
   }
   return true;
